@@ -29,7 +29,7 @@ VARIANT = "asan_mem"
 vbuild.VARIANTS.setdefault(VARIANT, ("gcc", ["-O1", "-g", "-fno-omit-frame-pointer", "-D" + vbuild.GUARD, "-fsanitize=address,undefined",
                                              "-fno-sanitize=shift,signed-integer-overflow,float-cast-overflow,float-divide-by-zero,integer-divide-by-zero",
                                              "-fno-sanitize-recover=all"], ["-rdynamic", "-fsanitize=address,undefined"]))
-ENV = dict(os.environ, ASAN_OPTIONS="detect_leaks=0:abort_on_error=0:allocator_may_return_null=1:max_allocation_size_mb=3072:hard_rss_limit_mb=3072:detect_stack_use_after_return=0",
+ENV = dict(os.environ, ASAN_OPTIONS="detect_leaks=0:abort_on_error=0:allocator_may_return_null=1:max_allocation_size_mb=40000:hard_rss_limit_mb=2500:detect_stack_use_after_return=0",
            UBSAN_OPTIONS="print_stacktrace=1")
 
 
